@@ -72,11 +72,21 @@ def run(ctx):
             sweep_bad = (d, b, x[:200])
     # translation validation proper: the committed model, flattened (gadgets inlined, wires
     # renumbered), is the API-call trace of the current Go circuits and of the proved Lean model
-    common.go_build(['trace'])
-    common.lake_build(['driver'])
     flat_bad = None
+    trace_ok = True
+    try:
+        common.go_build(['trace'])
+        common.lake_build(['driver'])
+    except TieBroken as t:
+        # e.g. a gadget's fields changed: the recorder harness no longer compiles.  Keep going: the
+        # identifier and byte-equality checks below may still produce a concrete difference.
+        trace_ok = False
+        ctx.oblige('flatten(committed model) = recorder trace = model trace', False, 'trace harness does not build: ' + t.detail[-300:])
+        flat_bad_tie = t
     import hashlib as _h
     for circ, defname in (('Insertion', 'InsertionMbuCircuit_4_30_4_4_30'), ('Deletion', 'DeletionMbuCircuit_4_4_30_4_4_30')):
+        if not trace_ok:
+            break
         fl = common.run(['python3', os.path.join(common.ROOT, 'tools', 'flatten_extraction.py'), os.path.join(FV, 'FormalVerification.lean'), defname], env=dict(os.environ))
         a, b = common.trace_pair([circ, str(common.BN254), '30', '4'])
         programs += 1
@@ -124,6 +134,8 @@ def run(ctx):
         raise Violation(f'proof files refer to definitions missing from the model: {missing[:5]}', replay)
     if facts_err:
         raise facts_err
+    if not trace_ok:
+        raise flat_bad_tie
 
 
 def replay(ctx, data):
